@@ -3,7 +3,7 @@
     pass the certificates for the same constraint lists accept each pattern
     under exactly the same valuations, whatever answers the heuristic gave. *)
 From PM Require Import Model.Prelude Model.Domain Model.Automaton
-  Cert.LabCheck Cert.WinCheck Proofs.AbsEquiv Properties.C03.
+  Model.Traversal Model.DomString Cert.LabCheck Cert.WinCheck Proofs.AbsEquiv Proofs.StringExact Properties.C03.
 
 Theorem c04_heuristic_independent_acceptance :
   forall (K V M H P : Type) (D : DomOps K V M H P), DomEq D ->
@@ -26,4 +26,20 @@ Proof.
            A1 A2 L1 L2 cs cs pr pr i i cp C1 W1 C2 W2 Hn Hp Hn Hp).
 Qed.
 
+(** strings, at the level of the run: two automata built from the same pattern
+    list under any two heuristics, each passing the four certificate checks,
+    report every non-empty pattern at exactly the same host positions. *)
+Theorem c04_string_runs_agree :
+  forall A1 L1 rk1 ids1 A2 L2 rk2 ids2 (pats : list spattern) (present : list bool) h f1 f2 ms1 ms2 i p a,
+    s_certified A1 L1 rk1 ids1 pats present -> s_certified A2 L2 rk2 ids2 pats present ->
+    run string_dom f1 A1 h = Ok ms1 -> run string_dom f2 A2 h = Ok ms2 ->
+    nth_error pats i = Some p -> nth_error present i = Some true -> p <> [] ->
+    ((exists len, In (N.of_nat i, SBound a len) ms1) <-> (exists len, In (N.of_nat i, SBound a len) ms2)).
+Proof.
+  intros A1 L1 rk1 ids1 A2 L2 rk2 ids2 pats present h f1 f2 ms1 ms2 i p a C1 C2 R1 R2 Hp Hpr Hne.
+  exact (s_certified_agree A1 L1 rk1 ids1 pats present A2 L2 rk2 ids2 pats present h f1 f2 ms1 ms2 i i p a
+           C1 C2 R1 R2 Hp Hpr Hp Hpr Hne).
+Qed.
+
 Print Assumptions c04_heuristic_independent_acceptance.
+Print Assumptions c04_string_runs_agree.
